@@ -401,7 +401,25 @@ def r2_mask_producer(ctx, rule, lower_only=True):
     inits = [s for s in lp.body if isinstance(s, ast.Assign) and U(s.targets[0]) == 'mask' and const(s.value) == '']
     apps = [c for c in calls_in(lp) if isinstance(c.func, ast.Attribute) and c.func.attr == 'append' and U(c.func.value) == 'mask_list'
             and c.args and U(c.args[0]) == 'mask']
-    if not mask_ok or len(inits) != 1 or len(apps) != 1:
+    # the same mask as one expression: mask_list.append(''.join('U' if ch.isupper() else 'L' for ch in <segment>))
+    japps = [c for c in calls_in(lp) if isinstance(c.func, ast.Attribute) and c.func.attr == 'append' and U(c.func.value) == 'mask_list'
+             and c.args and isinstance(c.args[0], ast.Call) and U(c.args[0].func) == "''.join" and len(c.args[0].args) == 1
+             and isinstance(c.args[0].args[0], (ast.GeneratorExp, ast.ListComp)) and len(c.args[0].args[0].generators) == 1]
+    join_form = False
+    if not mloops and not inits and not apps and len(japps) == 1:
+        g = japps[0].args[0].args[0]
+        gen = g.generators[0]
+        facts['mask_over'] = U(gen.iter)
+        ch = U(gen.target)
+        e = g.elt
+        join_form = True
+        mask_ok = (U(gen.iter) == U(seg) and not gen.ifs and isinstance(e, ast.IfExp) and U(e.test) == '%s.isupper()' % ch
+                   and const(e.body) == 'U' and const(e.orelse) == 'L')
+        facts['mask_map'] = U(e)[:120]
+    if not mloops and not japps and not apps:
+        ctx.unk(rule, qual, 'the construction of the capitalisation mask is not recognised', facts)
+        ok = False
+    elif not mask_ok or (not join_form and (len(inits) != 1 or len(apps) != 1)):
         ok = False
         ctx.bad(rule, qual, 'mask built from %s' % facts.get('mask_over', '?'),
                 "the mask of a word must be computed character by character over exactly the slice that is that word "
